@@ -848,9 +848,16 @@ MANIFEST = {
                   "type-system model of C10/C11; the model is tied to /repo on every run by evaluating both of its forms inside Coq on "
                   "the tuples the implementation was run on (all argument orders and groupings), and the property statement is run "
                   "directly on the implementation by an independent oracle.",
-    "level_note": "see design-notes/reports/C13.md for what is proved in full and what is partial (order independence is proved for "
-                  "inputs without competing supertypes only; the full statement is explored exhaustively on small pools by the "
-                  "correspondence and the oracle).",
+    "level_note": "Proved for all well-formed inputs (Props/C13.v, 18 theorems, closed under the global context): the result satisfies the "
+                  "C10/C11 invariant (hierarchy and features), termination within the stated fuel, the only exception is ValueError, "
+                  "contains every declared type and feature, most specific declared supertype, incomparable / contradictory supertypes "
+                  "and differing declarations of a feature on one chain raise ValueError, no reference to an object of an input (ghost "
+                  "owner tags), order independence for inputs without competing supertypes when both orders succeed. Not proved (kept as "
+                  "comments in Props/C13.v; explored by the correspondence over all argument orders and groupings and by the oracle): order "
+                  "independence under the property's side condition with competing supertypes and for regrouping, idempotence / "
+                  "neutrality of the empty type system proper, 'agreeing features never raise', refinement between the two model forms "
+                  "(both evaluated on every case). In the quick tier about a third of the cases is also evaluated in Coq (all in the "
+                  "implementation and the oracle). Trusted: Coq kernel + vm_compute; hand-written models Merge.v / TS.v; the harness.",
     "technique": "Coq proof over an executable Gallina model + in-Coq behavioural correspondence (exhaustive small pools, random larger) + direct oracle",
     "design_ref": "DESIGN.md section 5, C13",
 }
